@@ -113,7 +113,7 @@ def valid_seq_w(shp, rng):
 
 
 def run(ctx):
-    ctx.build_repo(need_hook=False)
+    ctx.build_repo(need_hook=True)
     ok, failing, log = ctx.coq_props("C07")
     ctx.coverage["trusted_base"] = TRUSTED
     ctx.coverage["rule"] = ("ALL protocol shapes (stream / non-stream patterns) up to 3 steps plus random longer ones; for each, ALL call "
